@@ -48,8 +48,9 @@ PARTIAL = ['termination is proved for the whole-loop MODEL (C07_terminates: at m
            'whole-loop model = code only as far as the correspondence stream explored; a code change that picks another valid output '
            'where cells tie loses the tie without violating C07: its outputs are judged by the checker and, when all are certified, the '
            'verdict is a broken correspondence without a failing input (LOOP_TIE_STRICT)',
-           '"refuses only when no seat matrix exists" is proved for the opening refusal (no votes: C07_no_votes_refusal_justified) and '
-           'decided per instance (verified cut / matrix certificates) for the refusal through the adjustment coefficient',
+           '"refuses only when no seat matrix exists" is proved for the MODEL at both refusal sites (C07_no_votes_refusal_justified, '
+           'C07_refusal_justified: signpost_q 0 and 1/2, target dictionary without foreign keys); for the code every explored refusal '
+           'is judged by the verified cut of the feasibility reference (now proved complete: C07_feasible_ref_complete)',
            'the row <-> HighestAverages model equality is stated (C07_row_is_highest_averages_full_statement) and proved in its '
            'declarative min-max form (C07_row_divisor_apportionment) only',
            'C07_augment_inv treats the transfer path as an oracle; the whole-loop theorems compute it (labeled + walk)']
@@ -387,6 +388,10 @@ def judge(ctx, stream, cases, limit):
             io = common.err(r[1])
             ctx.nontrivial.add(common.case_hash(c))
             c = dict(c, _exc=r[2])
+            # C07_step_refusal_justified: from a state that satisfies the loop invariant the refused coefficient is 0, never >= 1
+            if 'adjustment coefficient' in r[2]:
+                coef = r[2].rsplit(' ', 1)[-1]
+                ctx.dist['refused coefficient: %s' % ('0' if coef in ('0', '0.0') else 'not 0 (excluded by C07_step_refusal_justified)')] += 1
             if v[1] == 0:
                 ctx.dist['refusal justified (verified cut)'] += 1
                 if len(ctx.samples) < 3:
